@@ -174,7 +174,7 @@ def _verify(sig_type, pub, signed, sig):
 
 # ---- deviations --------------------------------------------------------------------------------------------------------------
 DEVIATIONS = ['none', 'bad-name', 'forged-sig', 'substituted-key', 'kl-elsewhere', 'missing-cert', 'nack-cert', 'unsigned',
-              'digest-only', 'loop', 'wrong-signer-level', 'wrong-id']
+              'digest-only', 'loop', 'wrong-signer-level', 'wrong-id', 'hmac-with-public-key']
 
 
 def build_packets(h, spec, store, policy):
@@ -192,6 +192,12 @@ def build_packets(h, spec, store, policy):
     elif dev == 'digest-only':
         nm = [comp('site'), comp('data'), comp(who), comp('d1')]
         out.append((dev, nm, net.data_wire(nm, b'x')))
+    elif dev == 'hmac-with-public-key':
+        # an attacker without any private key: HMAC keyed with the (public!) key bits of the certificate it names
+        from ndn.security.signer import HmacSha256Signer
+        c = h.certs[d]
+        nm_ = [comp('site'), comp('data'), comp(who), comp('d1')]
+        out.append((dev, nm_, bytes(make_data(nm_, MetaInfo(), b'x', HmacSha256Signer(c['name'], K.KEYS[c['key']]['pub'])))))
     elif dev == 'wrong-id' and spec['shared']:
         out.append((dev, *h.data_packet('mallory', 1)))
     elif dev == 'wrong-signer-level' and d >= 2:
